@@ -1024,14 +1024,11 @@ func (t *fnTrans) applyOnReturn(fc *FuncContract, post *Env) {
 		}
 		sv := t.ghostVar(g, post.pkgOf(g.Pkg))
 		pe := *post
-		// in the right-hand side ghost variables denote their values before the call (and before
-		// earlier onreturn clauses of the same call are NOT visible either: simultaneous update)
+		// in the right-hand side the assigned ghost itself denotes its value before the call (so that
+		// `g := g + 1` works even when g is listed in `modifies`); every other name is read in the
+		// post-state, after earlier onreturn clauses of the same contract
 		mixed := t.cur.clone()
-		for name, v := range t.vars {
-			if v.Kind == "ghost" {
-				mixed.m[name] = t.get(post.old, name)
-			}
-		}
+		mixed.m[sv.Name] = t.get(post.old, sv.Name)
 		pe.st = mixed
 		v, vt := pe.eval(gs.Val)
 		nv := pe.coerce(v, vt, sv.Typ)
